@@ -142,8 +142,8 @@ def subContext (H : Hashes) (c : Ctx) (sub : List Nat) : Ctx :=
   { c with
     quorum := sortIds sub
     tlog := c.tlog ++ tAppend subQuorumLabel (subQuorumData sub)
-    seeds := ((sortIds sub).filter (· != c.holder)).filterMap fun i =>
-      (c.seeds.lookup i).map fun st => (i, ⟨subContextLabel, subSeedAbsorb (st.read H 32) sub⟩) }
+    seeds := ((sortIds sub).filter (· != c.holder)).map fun i =>
+      (i, ⟨subContextLabel, subSeedAbsorb (((c.seeds.lookup i).getD ⟨[], []⟩).read H 32) sub⟩) }
 
 /-- the context party `id` obtains from an honest run: `view` = the broadcast contributions,
 `contrib a b` = the pairwise contribution `a` sent to `b` -/
